@@ -13,7 +13,15 @@ CM = metric.CM
 
 def targets(tier):
 	# the kernel's postcondition carries symmetry and width independence for all nine type pairings
-	return [(CM + 'c_jaccarddist', name, ov) for name, ov in metric.KERNEL_INSTANCES]
+	t = [(CM + 'c_jaccarddist', name, ov) for name, ov in metric.KERNEL_INSTANCES]
+	# ... and the Python entry point users call must hand the kernel the SAME values whatever the two widths are
+	# (contract: result == D(coords1, coords2) as sets of mathematical integers, for every pair of integer dtypes)
+	from pyvc.libspec.np import NdArr
+	from props.C02 import OK_DT, PM
+	for a in OK_DT:
+		for b in OK_DT:
+			t.append((PM + 'jaccarddist', f'{a},{b}', {'coords1': NdArr(a), 'coords2': NdArr(b)}))
+	return t
 
 
 TRUSTED = [
